@@ -33,7 +33,7 @@ func cmdManifest() int {
 		}
 		ref := p.DesignRef
 		if ref == "" {
-			ref = "DESIGN.md section 4, " + id
+			ref = "DESIGN.md section 4 (" + id + ": design) and section 9.4 (harnesses as built)"
 		}
 		checks = append(checks, map[string]any{
 			"property_id":         id,
